@@ -440,10 +440,12 @@ Apply(K, v) ==
     [] K.k = "iter" -> IterV(v)
     [] K.k = "err" -> RErrV(v)
     [] K.k = "sel" -> IF Truthy(v) THEN R1(K.input) ELSE REmpty
-    [] K.k = "objK" -> IF v.t # "str" THEN RMsg(<<M_cannot_use, Dump(v), M_as_object_key>>)
-                       ELSE BindR(Eval(K.es[K.i][2], K.input, K.env),
-                                  [k |-> "objV", es |-> K.es, i |-> K.i, key |-> v.cp, acc |-> K.acc, input |-> K.input, env |-> K.env])
-    [] K.k = "objV" -> ObjBuild(K.es, K.i + 1, KvPut(K.acc, K.key, v), K.input, K.env)
+    \* jq evaluates the key, then the value, and only then checks the key's type (INSERT):
+    \* {(<non-string>): empty} yields nothing, it does not raise
+    [] K.k = "objK" -> BindR(Eval(K.es[K.i][2], K.input, K.env),
+                             [k |-> "objV", es |-> K.es, i |-> K.i, key |-> v, acc |-> K.acc, input |-> K.input, env |-> K.env])
+    [] K.k = "objV" -> IF K.key.t # "str" THEN RMsg(<<M_cannot_use, Dump(K.key), M_as_object_key>>)
+                       ELSE ObjBuild(K.es, K.i + 1, KvPut(K.acc, K.key.cp, v), K.input, K.env)
     [] K.k = "limit" ->
          IF v.t # "num" THEN RSkip
          ELSE IF v.n = 0 /\ v.fr = 0 THEN REmpty
